@@ -232,8 +232,24 @@ def run_resume(case):
     s1 = tdgl.solve(dev, opts(n1, k, "first.h5"), **kw)
     if case["seed"] == "reloaded":
         s1 = tdgl.Solution.from_hdf5("first.h5")
+    seed_before = {d: np.array(getattr(s1.tdgl_data, d)) for d in DSETS}
+    # the same seed object is used twice (with another recording configuration in between): using a saved state must not change it
+    tdgl.solve(dev, opts(N - n1, (k % 3) + 1, "other.h5"), seed_solution=s1, **kw)
+    changed = [d for d in DSETS if not np.array_equal(seed_before[d], getattr(s1.tdgl_data, d))]
+    if changed:
+        res.violate("seed-solution-changed-by-being-used", dataset=changed[0], screening=scr, detail={"case": case, "changed": changed})
     tdgl.solve(dev, opts(N - n1, k, "second.h5"), seed_solution=s1, **kw)
     second, _ = drivers.read_frames("second.h5")
+    other, _ = drivers.read_frames("other.h5")
+    for fr in other:
+        j = int(fr["attrs"]["step"])
+        want = full.get(n1 + j)
+        if want is not None:
+            for d in DSETS:
+                if not np.array_equal(np.asarray(fr["data"][d]), np.asarray(want["data"][d])):
+                    res.violate("resume-differs", dataset=d, at_seed_frame=(j == 0), screening=scr,
+                                detail={"case": case, "which": "first use of the seed", "resumed_label": j})
+                    break
     for fr in second:
         j = int(fr["attrs"]["step"])
         want = full.get(n1 + j)
@@ -252,7 +268,7 @@ def run_resume(case):
                 break
     if int(second[-1]["attrs"]["step"]) != N - n1:
         res.violate("resumed-run-length", detail={"last": int(second[-1]["attrs"]["step"]), "want": N - n1})
-    res.executions = 3
+    res.executions = 4
     res.nontrivial = True
     res.outcome = f"resume;scr={scr}"
     return res
